@@ -170,6 +170,7 @@ pub fn run(run: &Run) {
         run.count(&format!("values_{}", f.name), vals.len() as u64);
         run.sample(json!({"format": f.name, "tokens": emit::value(&f, &vals[vals.len() - 5])}));
         vals.par_iter().for_each(|v| {
+            let _w = crate::watch::enter(&v.show());
             let toks = emit::value(&f, v);
             let expect = v.canon();
             let feats = c01::features(&f, v);
@@ -255,6 +256,7 @@ pub fn run(run: &Run) {
         vals.extend(u::mixed_wide(&f).into_iter().map(V::term));
         run.count(&format!("medium_values_{}", f.name), vals.len() as u64);
         vals.par_iter().for_each(|v| {
+            let _w = crate::watch::enter(&v.show());
             let toks = emit::value(&f, v);
             let expect = v.canon();
             let feats = c01::features(&f, v);
